@@ -1,8 +1,26 @@
 package sim
 
 import (
+	"encoding/base64"
 	"time"
 )
+
+// Bytes returns the content of the file.
+func (f *FileSpec) Bytes() []byte {
+	if f.B64 != "" {
+		b, _ := base64.StdEncoding.DecodeString(f.B64)
+		return b
+	}
+	return []byte(f.Content)
+}
+
+func (p *ProcSpec) StdinBytes() []byte {
+	if p.StdinB64 != "" {
+		b, _ := base64.StdEncoding.DecodeString(p.StdinB64)
+		return b
+	}
+	return []byte(p.Stdin)
+}
 
 // Scenario is everything that defines a run apart from scheduling decisions.
 type Scenario struct {
@@ -15,6 +33,7 @@ type Scenario struct {
 	Cancels  []CancelSpec      `json:"cancels,omitempty"`
 	Faults   []FaultSpec       `json:"faults,omitempty"`
 	Torn     *TornSpec         `json:"torn,omitempty"`
+	RmRepoAt int               `json:"rm_repo_at,omitempty"` // remove the repository directory when process 0 reaches this yield
 	MaxSteps int               `json:"max_steps,omitempty"`
 	MaxSimS  int               `json:"max_sim_s,omitempty"`
 	Meta     map[string]string `json:"meta,omitempty"`
@@ -30,27 +49,29 @@ func (s *Scenario) maxSimTime() time.Duration {
 type FileSpec struct {
 	Name    string `json:"name"`
 	Content string `json:"content"`
+	B64     string `json:"b64,omitempty"` // binary content (takes precedence)
 	Dir     bool   `json:"dir,omitempty"`
 	Mode    uint32 `json:"mode,omitempty"`
 }
 
 type ProcSpec struct {
-	Program      string   `json:"program"`
-	Statements   []string `json:"statements,omitempty"` // shell mode: one Execute per entry
-	Repeats      []int    `json:"repeats,omitempty"`    // shell mode: execute entry i this many times (same syntax tree); default 1
-	CPU          int      `json:"cpu"`
-	WaitTimeoutS float64  `json:"wait_timeout_s"`
-	RetryDelayNs int64    `json:"retry_delay_ns"`
-	Stdin        string   `json:"stdin,omitempty"`
-	HasStdin     bool     `json:"has_stdin,omitempty"`
-	StdinChunk   int      `json:"stdin_chunk,omitempty"`  // >0: reads return at most this many bytes
-	StdinFailAt  int      `json:"stdin_fail_at,omitempty"` // >0: error after this many bytes
-	StdinEOFAt   int      `json:"stdin_eof_at,omitempty"`  // >0: EOF after this many bytes
-	OutFile      string   `json:"out_file,omitempty"`
-	Format       string   `json:"format,omitempty"`        // export format flag
-	Flags        map[string]string `json:"flags,omitempty"` // extra SET @@FLAG values applied through Tx.SetFlag
-	Quiet        bool     `json:"quiet"`
-	Shell        bool     `json:"shell,omitempty"`
+	Program      string            `json:"program"`
+	Statements   []string          `json:"statements,omitempty"` // shell mode: one Execute per entry
+	Repeats      []int             `json:"repeats,omitempty"`    // shell mode: execute entry i this many times (same syntax tree); default 1
+	CPU          int               `json:"cpu"`
+	WaitTimeoutS float64           `json:"wait_timeout_s"`
+	RetryDelayNs int64             `json:"retry_delay_ns"`
+	Stdin        string            `json:"stdin,omitempty"`
+	StdinB64     string            `json:"stdin_b64,omitempty"`
+	HasStdin     bool              `json:"has_stdin,omitempty"`
+	StdinChunk   int               `json:"stdin_chunk,omitempty"`   // >0: reads return at most this many bytes
+	StdinFailAt  int               `json:"stdin_fail_at,omitempty"` // >0: error after this many bytes
+	StdinEOFAt   int               `json:"stdin_eof_at,omitempty"`  // >0: EOF after this many bytes
+	OutFile      string            `json:"out_file,omitempty"`
+	Format       string            `json:"format,omitempty"` // export format flag
+	Flags        map[string]string `json:"flags,omitempty"`  // extra SET @@FLAG values applied through Tx.SetFlag
+	Quiet        bool              `json:"quiet"`
+	Shell        bool              `json:"shell,omitempty"`
 }
 
 type Knobs struct {
